@@ -986,6 +986,65 @@ def ep_empty(prog: Program) -> RuleResult:
     return r
 
 
+def cmp_apply(prog: Program) -> RuleResult:
+    """The verdict of a comparison is the operator applied to the two operand values of *this* binding, computed once per binding:
+    the decision table of Comparator.apply_operation, path by path. The result handed back, the truth recorded on the node and the
+    value written into the bindings are that one application; its left argument is read from the left operand's binding and its
+    right argument from the right operand's (a normalisation of both - collections compared as sets - is the only thing allowed in
+    between). An answer taken from anywhere else (a memo keyed by identity, a shortcut on the identities of the operands, a
+    constant) is the answer to another question."""
+    from ..dtable import explore, Sym, App, term
+    from ..astutil import site
+
+    r = RuleResult("CMP-APPLY", "a comparison's verdict is its operator applied to the two operand values of the binding, once", floor=4)
+    c = prog.cls("symbolic.Comparator")
+    f = prog.lookup(c.qual, "apply_operation")
+    if f is None or len(f.params) < 2:
+        raise AnalysisError("CMP-APPLY: Comparator.apply_operation(self, operand_values) not found")
+    ov = f.params[1]
+    paths = explore(prog, f, [Sym("self"), Sym(ov)], self_type=c.qual, max_paths=400)
+    if len(paths) < 4:
+        raise AnalysisError(f"CMP-APPLY: only {len(paths)} paths through Comparator.apply_operation")
+    left = f"getitem({ov}.bindings, self.left._id_)"
+    right = f"getitem({ov}.bindings, self.right._id_)"
+    bad = {}
+
+    def note(key, what):
+        bad.setdefault(key, what)
+
+    for val, out, calls in paths:
+        guard = ", ".join(f"{k[1]}{' ' + str(k[2]) if len(k) > 2 else ''}={v}" for k, v in val.items() if "operation(" not in str(k[1]))[:160]
+        if out[0] != "return":
+            continue  # a raise is loud
+        res = out[1]
+        if not (isinstance(res, App) and res.fn == "self.operation" and len(res.args) == 2 and not res.kwargs):
+            note("verdict-is-the-application", f"on the path [{guard}] the result is {term(res)[:100]}, not self.operation(<left value>, <right value>)")
+            continue
+        a, b = term(res.args[0]), term(res.args[1])
+        if not (left + ".value" in a and right not in a and right + ".value" in b and left not in b):
+            note("arguments-from-the-binding", f"on the path [{guard}] the operator is applied to ({a[:70]}, {b[:70]}): the left argument must be read from the left operand's "
+                                                f"binding and the right argument from the right operand's")
+        ncalls = [x for x in calls if isinstance(x, App) and x.fn == "self.operation"]
+        if len(ncalls) != 1:
+            note("applied-once", f"on the path [{guard}] the operator is applied {len(ncalls)} times")
+        truth = val.get(("truth", term(res)))
+        sets = [x for x in calls if isinstance(x, App) and x.fn == "setattr" and len(x.args) == 3 and x.args[1] == "_is_false_"]
+        if truth is not None and not (sets and all(x.args[2] is (not truth) for x in sets)):
+            note("truth-recorded", f"on the path [{guard}] the node's _is_false_ is not set to the negation of the verdict")
+        writes = [x for x in calls if isinstance(x, App) and x.fn == "setitem" and len(x.args) == 3 and term(x.args[1]) == "self._id_"]
+        if not (writes and all(term(res) in term(x.args[2]) for x in writes)):
+            note("verdict-written-to-the-bindings", f"on the path [{guard}] the verdict is not written into the bindings under the comparator's own id")
+    for key, good in [("verdict-is-the-application", "on every path the result is self.operation(left value, right value)"),
+                      ("arguments-from-the-binding", "left argument from the left operand's binding, right argument from the right operand's"),
+                      ("applied-once", "the operator is applied exactly once per binding"),
+                      ("truth-recorded", "_is_false_ is the negation of the verdict"),
+                      ("verdict-written-to-the-bindings", "the verdict is stored under the comparator's id")]:
+        r.check(key not in bad, f"Comparator.apply_operation#{key}", site(f), f"{len(paths)} paths", good,
+                (bad.get(key) or "") + ": the comparison answers from something other than the operand values of this assignment, so rows are reported that do not satisfy the "
+                "condition, or satisfying rows are dropped")
+    return r
+
+
 def _ep_bound(prog):
     # a value that is bound already is used as it is, whatever it is: re-enumerating it (a falsy element of a flattened collection taken
     # for 'not bound') gives rows that are no consistent assignment
@@ -998,4 +1057,4 @@ def run(prog: Program, tier: str) -> List[RuleResult]:
     from .c03 import domain_cache
 
     _cache.clear()
-    return [ep_thread(prog), ep_neg(prog), ep_filter(prog), ep_selected(prog), ep_union_pass(prog), ep_operand(prog), domain_cache(prog), ep_universal(prog), ep_empty(prog), ep_quant(prog), _ep_bound(prog)]
+    return [ep_thread(prog), ep_neg(prog), ep_filter(prog), ep_selected(prog), ep_union_pass(prog), ep_operand(prog), domain_cache(prog), ep_universal(prog), ep_empty(prog), ep_quant(prog), _ep_bound(prog), cmp_apply(prog)]
